@@ -38,6 +38,20 @@ static void abnormal(const Case &c, long id, const char *how, int detail)
       .emit(wv_out);
 }
 static int g_abn = 0;
+// every forked batch first verifies and decrypts the authentic file with the right key (when there is
+// one): a verdict, key schedule or buffer cached process-wide by that success must not leak into the
+// tampered / wrong-key cases that follow in the same process
+static Case g_prime;
+static bool g_has_prime = false;
+static void prime()
+{
+  if (!g_has_prime)
+    return;
+  OpResult v = wv_verify(g_prime.C, g_prime.key, g_prime.T);
+  OpResult d = wv_decrypt(g_prime.C, g_prime.key, g_prime.T);
+  (void)v;
+  (void)d;
+}
 static void run_batch(const std::vector<Case> &cs)
 {
   const size_t B = 40;
@@ -49,6 +63,7 @@ static void run_batch(const std::vector<Case> &cs)
     // events of a batch are buffered in the child and only written when the whole batch succeeded
     int how = wv_guarded([&]()
                          {
+      prime();
       for (size_t i = lo; i < hi; ++i)
         run_case(cs[i], base + (long)(i - lo)); },
                          60, &detail);
@@ -60,7 +75,7 @@ static void run_batch(const std::vector<Case> &cs)
       {
         int d2 = 0;
         int h2 = g_abn > 40 ? 1 : wv_guarded([&]()
-                                              { run_case(cs[i], base + (long)(i - lo)); },
+                                              { prime(); run_case(cs[i], base + (long)(i - lo)); },
                                               8, &d2);
         if (h2 != 0)
         {
@@ -161,6 +176,8 @@ int main(int argc, char **argv)
     {
       OpResult e = wv_encrypt(P, key, cm, hm, seed, T);
       const std::vector<u8_t> &C = e.out;
+      g_prime.T = T, g_prime.key = key, g_prime.C = C;
+      g_has_prime = true;
       auto add = [&](const std::string &kind, long pos, long val, const std::vector<u8_t> &t)
       { mk("tamper", kind, pos, val, t, key, P, key, C); };
       if (mode == "tamper")
